@@ -68,10 +68,15 @@ def att2idx (s : List Nat) : Idx :=
 /-- `att2name(att)` -/
 def att2name (s : List Nat) : List Nat := (splitUS s).headD []
 
+/-- decimal digits of `n` as character codes, most significant first (`str(n)`) -/
+def digits10 (n : Nat) : List Nat :=
+  if n < 10 then [48 + n] else digits10 (n / 10) ++ [48 + n % 10]
+termination_by n
+decreasing_by omega
+
 /-- `f"_{i:02d}"` -/
 def suffix2 (i : Nat) : List Nat :=
-  let ds := (Nat.toDigits 10 i).map (fun c => c.toNat)
-  95 :: (if ds.length < 2 then 48 :: ds else ds)
+  95 :: (if i < 10 then [48, 48 + i] else digits10 i)
 
 /-- the rendered attribute name: base name followed by one suffix per enclosing group -/
 def renderName (base : List Nat) (idx : List Nat) : List Nat :=
